@@ -94,5 +94,8 @@ func (o Op) Norm() Op {
 			*p = []string{}
 		}
 	}
+	if o.GAud == nil {
+		o.GAud = []string{"*"}
+	}
 	return o
 }
